@@ -187,9 +187,9 @@ theorem lev_nextValid (term : List Nat) (k p0 : Nat) (hv : Valid term) (d : DFA)
   obtain ⟨G, env, hG0, _⟩ := lev_env term k p0 hv d h
   intro s hvs
   obtain ⟨r, hr⟩ := hterm s hvs
-  rcases nextValidString_ok env hG0 chain s hvs r hr with ⟨rfl, hno⟩ | ⟨m, rfl, ha, hle, hmin⟩
+  rcases nextValidString_ok env hG0 chain s hvs r hr with ⟨rfl, hno⟩ | ⟨m, rfl, ha, hle, hmin, hvm⟩
   · exact Or.inl ⟨hr, hno⟩
-  · exact Or.inr ⟨m, hr, ha, hle, hmin⟩
+  · exact Or.inr ⟨m, hr, ha, hle, hmin, hvm⟩
 
 /-- `next_valid_string` of a Levenshtein DFA always ends within the model's fuel. -/
 theorem lev_nextValidString_terminates (term : List Nat) (k p0 : Nat) (hv : Valid term) (d : DFA)
